@@ -3,6 +3,9 @@ C04 — Unspaced text is tokenised exactly as documented (keywords, names, numbe
 Property theorems only; helper lemmas live in ZnVerif/Proofs.
 -/
 import ZnVerif.Proofs.BinSearch
+import ZnVerif.Proofs.NumberForm
+import ZnVerif.Spec.Keywords
+import ZnVerif.Generated.Tokens
 
 namespace ZnVerif.Properties.C04
 open ZnVerif ZnVerif.Model ZnVerif.Spec ZnVerif.Generated
@@ -37,5 +40,138 @@ example : sortedDisjoint [(1, 3), (5, 5), (9, 20)] = true ∧ 0 < #[(1, 3), (5, 
 set_option maxRecDepth 100000 in
 example : idInRange 0x4E2D = .ok true ∧ idInRange 0x3002 = .ok false := by
   constructor <;> rw [idInRange_is_membership] <;> decide +kernel
+
+
+/-! ### Numbers: `tryParseNumber` recognises exactly the documented form, for every string -/
+
+/-- table facts tying the regenerated Go switch to the 9-class step function used in the proofs
+(re-checked on every run; a semantic change of the switch breaks `numberDFA_is_specStep`) -/
+theorem numberDFA_chars_ascii : ∀ t ∈ NumberDFA.transitions, ∀ c ∈ t.1, c < 128 :=
+  Proofs.NumberForm.table_chars_ascii
+theorem numberDFA_states_small :
+    ∀ t ∈ NumberDFA.transitions, ∀ tr ∈ t.2, (∀ q ∈ tr.1, q < 14) ∧ tr.2 < 14 :=
+  Proofs.NumberForm.table_states_small
+theorem numberDFA_is_specStep (q c : Nat) :
+    dfaStep q c = Proofs.NumberForm.specStep q (Proofs.NumberForm.classOf c) :=
+  Proofs.NumberForm.dfaStep_eq q c
+
+/-- the hand-written DFA answers "number" exactly on the documented numeric form — all strings, any length -/
+theorem number_form (s : List Nat) : tryParseNumber s = .number ↔ NumForm s :=
+  Proofs.NumberForm.number_form s
+
+/-- "an identifier that starts like a number but is not one is rejected, never treated as a name" -/
+theorem starts_like_number_rejected (s : List Nat) (h1 : StartsLikeNumber s) (h2 : ¬ NumForm s) :
+    tryParseNumber s = .error :=
+  Proofs.NumberForm.starts_like_number_rejected s h1 h2
+
+/-- everything else is a name -/
+theorem otherwise_name (s : List Nat) (h : ¬ StartsLikeNumber s) : tryParseNumber s = .name :=
+  Proofs.NumberForm.otherwise_name s h
+
+/-- the executable spec oracle used by the driver decides the Prop-level spec … -/
+theorem numFormB_iff (s : List Nat) : numFormB s = true ↔ NumForm s :=
+  Proofs.NumberForm.numFormB_iff s
+theorem startsLikeNumberB_iff (s : List Nat) : startsLikeNumberB s = true ↔ StartsLikeNumber s :=
+  Proofs.NumberForm.startsLikeNumberB_iff s
+
+/-- … and agrees with the model on every string -/
+theorem classify_eq_model (s : List Nat) :
+    classify s = (match tryParseNumber s with
+      | .name => IdKind.name | .number => IdKind.number | .error => IdKind.error) :=
+  Proofs.NumberForm.classify_eq_model s
+
+/-- the text handed to `strconv.ParseFloat` after the two `strings.Replace` calls is sign, integer digits,
+fraction unchanged, and the exponent in `e` notation with the same sign and digits -/
+theorem number_text_for_ParseFloat (sg i f e : List Nat) (hs : SignOpt sg) (hi : Digits1 i)
+    (hf : Frac f) (he : Exp e) :
+    ∃ e', ExpText e e' ∧ parseFloatText (sg ++ i ++ f ++ e) = sg ++ i ++ f ++ e' :=
+  Proofs.NumberForm.number_text_for_ParseFloat sg i f e hs hi hf he
+
+-- non-vacuity. "-12.8*10^15" is a number on both sides; "2.3.5" starts like a number, is not one, is rejected;
+-- "+" , "+x", ".5", "e5", "IR80" do not start like a number and are names; "1e5" (E-notation needs a sign) is rejected.
+example : tryParseNumber [0x2D, 0x31, 0x32, 0x2E, 0x38, 0x2A, 0x31, 0x30, 0x5E, 0x31, 0x35] = .number := by decide
+example : NumForm [0x2D, 0x31, 0x32, 0x2E, 0x38, 0x2A, 0x31, 0x30, 0x5E, 0x31, 0x35] :=
+  ⟨[0x2D], [0x31, 0x32], [0x2E, 0x38], [0x2A, 0x31, 0x30, 0x5E, 0x31, 0x35], by decide,
+    Or.inr ⟨_, rfl, by decide⟩, ⟨by decide, by decide⟩, Or.inr ⟨_, rfl, by decide, by decide⟩,
+    Or.inr (Or.inr (Or.inl ⟨[], [0x31, 0x35], by decide, Or.inl rfl, by decide, by decide⟩))⟩
+example : StartsLikeNumber [0x32, 0x2E, 0x33, 0x2E, 0x35] ∧ ¬ NumForm [0x32, 0x2E, 0x33, 0x2E, 0x35] :=
+  ⟨⟨[], 0x32, _, rfl, Or.inl rfl, by decide⟩, fun h => absurd ((numFormB_iff _).mpr h) (by decide)⟩
+example : tryParseNumber [0x32, 0x2E, 0x33, 0x2E, 0x35] = .error := by decide
+example : tryParseNumber [0x31, 0x65, 0x35] = .error ∧ tryParseNumber [0x31, 0x65, 0x2B, 0x35] = .number := by decide
+example : ¬ StartsLikeNumber [0x49, 0x52, 0x38, 0x30] :=
+  fun h => absurd ((startsLikeNumberB_iff _).mpr h) (by decide)
+example : ¬ StartsLikeNumber [0x2B] ∧ ¬ StartsLikeNumber [0x2B, 0x78] ∧ ¬ StartsLikeNumber [0x2E, 0x35]
+    ∧ ¬ StartsLikeNumber [0x65, 0x35] :=
+  ⟨fun h => absurd ((startsLikeNumberB_iff _).mpr h) (by decide),
+   fun h => absurd ((startsLikeNumberB_iff _).mpr h) (by decide),
+   fun h => absurd ((startsLikeNumberB_iff _).mpr h) (by decide),
+   fun h => absurd ((startsLikeNumberB_iff _).mpr h) (by decide)⟩
+example : tryParseNumber [0x2B] = .name ∧ tryParseNumber [0x2B, 0x78] = .name ∧
+    tryParseNumber [0x2E, 0x35] = .name ∧ tryParseNumber [0x65, 0x35] = .name := by decide
+-- "-12.8*10^15" ↦ "-12.8e15", "7*^-3" ↦ "7e-3", "1E+2" unchanged
+example : SignOpt [0x2D] ∧ Digits1 [0x31, 0x32] ∧ Frac [0x2E, 0x38] ∧ Exp [0x2A, 0x31, 0x30, 0x5E, 0x31, 0x35] :=
+  ⟨Or.inr ⟨_, rfl, by decide⟩, ⟨by decide, by decide⟩, Or.inr ⟨_, rfl, by decide, by decide⟩,
+   Or.inr (Or.inr (Or.inl ⟨[], [0x31, 0x35], by decide, Or.inl rfl, by decide, by decide⟩))⟩
+example : parseFloatText [0x2D, 0x31, 0x32, 0x2E, 0x38, 0x2A, 0x31, 0x30, 0x5E, 0x31, 0x35]
+    = [0x2D, 0x31, 0x32, 0x2E, 0x38, 0x65, 0x31, 0x35] ∧
+    parseFloatText [0x37, 0x2A, 0x5E, 0x2D, 0x33] = [0x37, 0x65, 0x2D, 0x33] ∧
+    parseFloatText [0x31, 0x45, 0x2B, 0x32] = [0x31, 0x45, 0x2B, 0x32] := by decide
+
+/-! ### Keyword table (pkg/syntax/zh/keyword.go, regenerated as `Tokens.keywordTable`) -/
+
+/-- no first glyph is listed twice: the outer `switch ch` has one case per glyph -/
+theorem keyword_first_glyphs_distinct : (Tokens.keywordTable.map (·.1)).Nodup := by decide
+
+/-- within one glyph's ordered alternatives, no alternative's lookahead is a prefix of another one's
+(in either order; in particular no alternative is listed twice) -/
+theorem keyword_alternatives_exclusive :
+    ∀ e ∈ Tokens.keywordTable, ∀ a ∈ e.2, ∀ b ∈ e.2, a.1 <+: b.1 → a = b := by decide
+
+/-- hence at most one alternative matches the glyphs that follow … -/
+theorem keyword_match_unique :
+    ∀ e ∈ Tokens.keywordTable, ∀ (rest : List Nat), ∀ a ∈ e.2, ∀ b ∈ e.2,
+      a.1 <+: rest → b.1 <+: rest → a = b := by
+  intro e he rest a ha b hb h1 h2
+  rcases List.prefix_or_prefix_of_prefix h1 h2 with h | h
+  · exact keyword_alternatives_exclusive e he a ha b hb h
+  · exact (keyword_alternatives_exclusive e he b hb a ha h).symm
+
+/-- … and the order of the `if … else if …` chain does not matter: whichever alternative matches is the
+one the chain (first match in table order) selects -/
+theorem keyword_order_irrelevant :
+    ∀ e ∈ Tokens.keywordTable, ∀ (rest : List Nat), ∀ a ∈ e.2, a.1 <+: rest →
+      e.2.find? (fun x => x.1.isPrefixOf rest) = some a := by
+  intro e he rest a ha h
+  cases hf : e.2.find? (fun x => x.1.isPrefixOf rest) with
+  | none =>
+    have := List.find?_eq_none.mp hf a ha
+    exact absurd (List.isPrefixOf_iff_prefix.mpr h) this
+  | some x =>
+    have hx := List.mem_of_find?_eq_some hf
+    have hp : x.1 <+: rest := List.isPrefixOf_iff_prefix.mp (List.find?_some (p := fun (x : List Nat × Nat × Nat) => x.1.isPrefixOf rest) hf)
+    rw [keyword_match_unique e he rest x hx a ha hp h]
+
+/-- the recorded word length (how far the cursor moves) is the number of glyphs of the spelling -/
+theorem keyword_wordlen_consistent :
+    ∀ e ∈ Tokens.keywordTable, ∀ a ∈ e.2, a.2.1 = a.1.length + 1 := by decide
+
+/-- the table denotes exactly the documented keyword list: the same 34 spellings with the same token types -/
+theorem keyword_types_documented (x : List Nat × Nat) :
+    x ∈ Keywords.denoted Tokens.keywordTable ↔ x ∈ Keywords.documented := by
+  have h : ((Keywords.denoted Tokens.keywordTable).all (Keywords.documented.contains ·) &&
+      Keywords.documented.all ((Keywords.denoted Tokens.keywordTable).contains ·)) = true := by decide
+  simp only [Bool.and_eq_true, List.all_eq_true, List.contains_iff_mem] at h
+  exact ⟨h.1 x, h.2 x⟩
+
+/-- the documented list is a function of the spelling (34 distinct spellings) -/
+theorem keyword_documented_functional :
+    (Keywords.documented.map (·.1)).Nodup ∧ Keywords.documented.length = 34 := by decide
+
+-- non-vacuity: 不大于 is in the table (glyph 不, lookahead 大于), matches "大于20", and is what the chain selects
+example : (0x4E0D, [([0x4E3A], 2, 50), ([0x5927, 0x4E8E], 3, 52), ([0x7B49, 0x4E8E], 3, 51), ([0x5C0F, 0x4E8E], 3, 53)])
+    ∈ Tokens.keywordTable ∧ ([0x5927, 0x4E8E], 3, 52) ∈
+      [([0x4E3A], 2, 50), ([0x5927, 0x4E8E], 3, 52), ([0x7B49, 0x4E8E], 3, 51), ([0x5C0F, 0x4E8E], 3, 53)]
+    ∧ [0x5927, 0x4E8E] <+: [0x5927, 0x4E8E, 0x32, 0x30] := by decide
+example : ([0x4E0D, 0x5927, 0x4E8E], 52) ∈ Keywords.denoted Tokens.keywordTable := by decide
 
 end ZnVerif.Properties.C04
